@@ -872,7 +872,11 @@ class SearchConstraintSearchSince(BinarySeekSearchBase):  # noqa, pylint: disabl
 
         timestamp = self.ts_matcher_cls(line)
         if timestamp.matched:
-            return timestamp.strptime
+            try:
+                return timestamp.strptime
+            except ValueError:
+                # looks like a timestamp but is not a real date
+                return None
 
         return None
 
